@@ -34,6 +34,8 @@ package handler
 //@ event RtRestoreErrorRefused = ret core.(*Runtime).RestoreError when r0 != nil
 //@ event RtResponseSent = call core.(*Runtime).ResponseSent
 //@ event NoRuntime = ret core.(RegistrationService).GetRuntime when r0 == nil
+//@ event RenderBadMode = call rendering.RenderInvalidFunctionResponseMode
+//@ event RenderTruncated = call rendering.RenderTruncatedHTTPRequestError
 
 //@ spec noSideEffects() bool = delta(SendResponse) == 0 && delta(SendError) == 0 && delta(SendInitError) == 0 && delta(StoreTrace) == 0 && delta(RtResponseSent) == 0 && delta(RenderEvent) == 0 && delta(RenderAccepted) == 0
 
@@ -67,6 +69,10 @@ package handler
 //@   ensures [stale-or-duplicate-400] delta(SendResponseRefused) == 1 ==> delta(RenderInterop) == 1 && delta(RtResponseSent) == 0 && delta(RenderAccepted) == 0 && delta(SendError) == 0
 //@   ensures [oversize-413] delta(SendResponseTooLarge) == 1 && delta(SendErrorOK) == 1 ==> delta(SendError) == 1 && delta(RtResponseSent) == 1 && delta(Render413) == 1 && delta(RenderAccepted) == 0
 //@   ensures [oversize-error-body] delta(SendResponseTooLarge) == 1 ==> delta(SendError) == 1
+// C12: a response whose mode header is unknown is answered 400 and the invoker gets the platform's error: the invocation's one
+// response has been given, so the runtime's protocol state moves on like after any other answered response (it was left in
+// "response being sent", where every later call including next is refused until the timeout reset)
+//@   ensures [C12: a-response-with-an-unknown-mode-ends-the-response-phase] delta(RenderBadMode) == 1 ==> delta(SendError) == 1 && delta(SendResponse) == 0 && delta(RtResponseSent) == 1
 //@   ensures [the-body-is-handed-on-as-it-is] delta(SendResponse) == 1 ==> lastarg(SendResponse, 2).Payload == request.Body
 
 //@ func (*invocationErrorHandler).ServeHTTP
